@@ -555,6 +555,39 @@ theorem linearization_step (cfg : BwsConc.Cfg) (s s' : BwsCB.St) (a : Act) (h : 
            · exact Or.inr ⟨_, _, rfl, by assumption⟩
            · cases hc))
 
+/-- completed sections are never reordered or dropped: `hist` only grows, at the end.  In particular a `Write` that
+    had returned before some `Sync` call started is in `hist` then, hence among the sections that acquired the mutex
+    before that `Sync`'s section (`sync_flushes_conc`): real-time order is respected by the linearization -/
+theorem hist_monotone (cfg : BwsConc.Cfg) (s s' : BwsCB.St) (a : Act) (h : BwsCB.step cfg s a = some s') :
+    s.hist <+: s'.hist := by
+  unfold BwsCB.step at h
+  cases hc : BwsConc.step cfg s.c a.ctl with
+  | none => rw [hc] at h; cases h
+  | some c' =>
+    rw [hc] at h; injection h with h; subst h
+    cases a with
+    | write i bs => exact List.prefix_refl _
+    | sync i => exact List.prefix_refl _
+    | stop i => exact List.prefix_refl _
+    | tick => exact List.prefix_refl _
+    | client i =>
+      simp only [effect]
+      split <;> first | exact List.prefix_refl _ | exact List.prefix_append _ _
+    | loop =>
+      simp only [effect]
+      split <;> first | exact List.prefix_refl _ | exact List.prefix_append _ _
+
+theorem hist_monotone_run (cfg : BwsConc.Cfg) (acts : List Act) : ∀ (s s' : BwsCB.St), runActs cfg s acts = some s' →
+    s.hist <+: s'.hist := by
+  induction acts with
+  | nil => intro s s' h; simp only [runActs] at h; injection h with h; subst h; exact List.prefix_refl _
+  | cons a as ih =>
+    intro s s' h
+    simp only [runActs] at h
+    cases hs : BwsCB.step cfg s a with
+    | none => rw [hs] at h; cases h
+    | some t => rw [hs] at h; exact (hist_monotone cfg s t a hs).trans (ih t s' h)
+
 /-- sequential histories are the special case of one goroutine: Part 1's `run` is `lrun` of the expanded history -/
 theorem seq_is_linearized (s : Bws.St) (os : List Bws.Op) : lrun s (expand s os) = Bws.run s os := lrun_expand os s
 
